@@ -50,14 +50,14 @@ func Render(tokens []string, l Layout) string {
 				pendingBreak = 1
 			}
 			continue
-		case "~", "^":
+		case "~", "^", "%":
 			switch l.Soft {
 			case "line":
 				if pendingBreak < 1 {
 					pendingBreak = 1
 				}
 			case "blank":
-				if t == "~" {
+				if t == "~" || t == "%" {
 					pendingBreak = 2
 				} else if pendingBreak < 1 {
 					pendingBreak = 1
